@@ -297,17 +297,23 @@ ExportC11 == DenBound /\ ExportLine
 
 (* ------------------------------ C12 ------------------------------------ *)
 KKTList == KKTSet(inst)
+\* for every solver but pdhg the API start depends on x only: decide once per distinct x
+\* (sets bound by quantifiers over singletons are evaluated once)
+ApiFixedSet(K) ==
+  IF inst.solver = "pdhg" THEN {w \in K : ApiFixed(inst, w)}
+  ELSE CHOOSE R \in { {w \in K : w[1] \in G} :
+                        G \in { {x \in {w[1] : w \in K} : ApiFixed(inst, <<x, ZeroDuals(inst)>>)} } } : TRUE
 ExportAux ==
   (split = -1 /\ k = 0 /\ pc = 0 /\ inst.solver \in NonSmooth) =>
-    \E K \in {KKTList} :
-      Serialize(ToJson([inst |-> inst, k |-> -1, kkt |-> K, apifixed |-> {w \in K : ApiFixed(inst, w)}]) \o "\n",
+    \E K \in {KKTList} : \E F \in {ApiFixedSet(K)} :
+      Serialize(ToJson([inst |-> inst, k |-> -1, kkt |-> K, apifixed |-> F]) \o "\n",
                 IOEnv.OUT_FILE,
                 [format |-> "TXT", charset |-> "UTF-8",
                  openOptions |-> <<"WRITE", "CREATE", "APPEND">>]).exitValue = 0
 ExportC12 == DenBound /\ ExportLine /\ ExportAux
 \* deliberately false, used by the self-test to show that the property runs are not vacuous
 BogusFejerIncreases ==
-  [][(Stepped /\ inst.solver \in {"pdhg", "fb", "pg"} /\ Admissible(inst)) =>
+  [][(Stepped /\ FejerSafe(ref) /\ FejerSafe(ref') /\ inst.solver \in {"pdhg", "fb", "pg"} /\ Admissible(inst)) =>
        \A w \in KKTSet(inst) : SLe(FejerQty(inst, ref, w), FejerQty(inst, ref', w))]_vars
 BogusKKTNotFixed ==
   (k = 0 /\ pc = 0 /\ inst.solver \in NonSmooth) => kkt = {}
